@@ -232,6 +232,13 @@ Definition obj_set (v : value) (fld : str) (x : value) : result value :=
   | _ => RErr (s "cannot set field " ++ fld)
   end.
 
+(** the runtime library evaluates EVERY dependency of an argument list, every field and every call even after one of them failed, and
+    joins the errors (resolveDeps, setServiceFields, executeServiceCalls); only a failing wither, a failing decorator, a failing
+    member of a tagged list and a failing chunk of a pattern stop the evaluation.  The model keeps the FIRST error (the real error
+    text contains it) and threads the state through all evaluations, so that the side effects (caches, serials, trace) agree. *)
+Definition keep_err (acc : option str) (e : str) : option str := match acc with Some _ => acc | None => Some e end.
+Definition fin {A} (acc : option str) (v : A) : result A := match acc with Some e => RErr e | None => ROk v end.
+
 Fixpoint get (fuel : nat) (st : rt) (b : bag) (id : str) {struct fuel} : (rt * bag) * result value :=
   match fuel with
   | O => ((st, b), RErr (s "out of fuel"))
@@ -264,29 +271,33 @@ Fixpoint get (fuel : nat) (st : rt) (b : bag) (id : str) {struct fuel} : (rt * b
         | ROk v1 =>
           (* setServiceFields *)
           let '((st2, b2), r2) :=
-            (fix fields (l : list (str * rdep)) (st : rt) (b : bag) (v : value) : (rt * bag) * result value :=
+            (fix fields (l : list (str * rdep)) (st : rt) (b : bag) (v : value) (err : option str) : (rt * bag) * result value :=
                match l with
-               | [] => ((st, b), ROk v)
+               | [] => ((st, b), fin err v)
                | (n, dp) :: l' =>
                  match resolve_dep f st b dp with
-                 | ((st', b'), ROk x) => match obj_set v n x with ROk v' => fields l' st' b' v' | RErr e => ((st', b'), RErr e) end
-                 | ((st', b'), RErr e) => ((st', b'), RErr e)
+                 | ((st', b'), ROk x) => match obj_set v n x with ROk v' => fields l' st' b' v' err | RErr e => fields l' st' b' v (keep_err err e) end
+                 | ((st', b'), RErr e) => fields l' st' b' v (keep_err err e)
                  end
-               end) (sd_fields d) st1 b1 v1 in
+               end) (sd_fields d) st1 b1 v1 None in
           match r2 with
           | RErr e => ((st2, b2), RErr e)
           | ROk v2 =>
             (* executeServiceCalls *)
             let '((st3, b3), r3) :=
-              (fix calls (l : list rcall) (st : rt) (b : bag) (v : value) : (rt * bag) * result value :=
+              (fix calls (l : list rcall) (st : rt) (b : bag) (v : value) (err : option str) : (rt * bag) * result value :=
                  match l with
-                 | [] => ((st, b), ROk v)
+                 | [] => ((st, b), fin err v)
                  | c :: l' =>
                    match resolve_deps f st b (rc_deps c) with
-                   | ((st', b'), ROk args) => match obj_call v (rc_method c) args with ROk v' => calls l' st' b' v' | RErr e => ((st', b'), RErr e) end
-                   | ((st', b'), RErr e) => ((st', b'), RErr e)
+                   | ((st', b'), ROk args) =>
+                     match obj_call v (rc_method c) args with
+                     | ROk v' => calls l' st' b' v' err
+                     | RErr e => if rc_wither c then ((st', b'), RErr (match err with Some e0 => e0 | None => e end)) else calls l' st' b' v (keep_err err e)
+                     end
+                   | ((st', b'), RErr e) => calls l' st' b' v (keep_err err e)
                    end
-                 end) (sd_calls d) st2 b2 v2 in
+                 end) (sd_calls d) st2 b2 v2 None in
             match r3 with
             | RErr e => ((st3, b3), RErr e)
             | ROk v3 =>
@@ -348,14 +359,14 @@ with resolve_deps (fuel : nat) (st : rt) (b : bag) (ds : list rdep) {struct fuel
   match fuel with
   | O => ((st, b), RErr (s "out of fuel"))
   | S f =>
-    (fix each (l : list rdep) (st : rt) (b : bag) (acc : list value) : (rt * bag) * result (list value) :=
+    (fix each (l : list rdep) (st : rt) (b : bag) (acc : list value) (err : option str) : (rt * bag) * result (list value) :=
        match l with
-       | [] => ((st, b), ROk (rev acc))
+       | [] => ((st, b), fin err (rev acc))
        | d :: l' => match resolve_dep f st b d with
-                    | ((st', b'), ROk v) => each l' st' b' (v :: acc)
-                    | ((st', b'), RErr e) => ((st', b'), RErr e)
+                    | ((st', b'), ROk v) => each l' st' b' (v :: acc) err
+                    | ((st', b'), RErr e) => each l' st' b' acc (keep_err err e)
                     end
-       end) ds st b []
+       end) ds st b [] None
   end.
 
 End Eval.
